@@ -221,6 +221,14 @@ example : iToList reversedShape (iGuarded { discardProg with body := discardProg
       (iGuarded addProg 7 (iGuarded addProg 8 (iGuarded addProg 9 Pyx.OSetPtr.empty)))) = [7, 8, 9] ∧
     iToList reversedShape (iGuarded discardProg 8
       (iGuarded addProg 7 (iGuarded addProg 8 (iGuarded addProg 9 Pyx.OSetPtr.empty)))) = [7, 9] := by decide
+/-- more statement structures that are other functions: a walk that starts at `end[1]` (the last cell) but steps along
+    field 2 visits one element; an `add` guarded the wrong way round (`if key in self.map`) never inserts; an `add` whose
+    allocation does not write `curr[2]` leaves forward iteration empty -/
+example : iToList { startField := 1, stepField := 2 } (iGuarded addProg 7 (iGuarded addProg 8 (iGuarded addProg 9 Pyx.OSetPtr.empty))) = [7] ∧
+    iToList iterShape (iGuarded addProg 7 (iGuarded addProg 8 (iGuarded addProg 9 Pyx.OSetPtr.empty))) = [9, 8, 7] ∧
+    iToList iterShape (iGuarded { addProg with whenPresent := true } 7 Pyx.OSetPtr.empty) = [] ∧
+    iToList iterShape (iGuarded { addProg with body := [ .bind .curr (.field .endV 1),
+        .allocInto (.var .curr) (.var .endV) [(.field .endV 1), .mapAtKey] ] } 7 Pyx.OSetPtr.empty) = [] := by decide
 
 end PyxProps.C17
 
